@@ -293,12 +293,30 @@ def unit_masks_operators(variant, hermitian=True, n=2, nterms=2, timeout_ms=2000
                 return default        # e.g. sympy's Zero: not an operator expression
             return e.getattr(obj, name)
 
+        class IntPower(Model):
+            """sympify of an integer power: is_zero is decided (True / False) - the powers of the model are integers; symbolic powers of unknown sign are left to the battery"""
+            def __init__(s, v):
+                s.v = v
+
+            def m_getattr(s, e, name):
+                if name == "is_zero":
+                    return bool(e.branch(zi(s.v) == 0))
+                raise Unsupported(f"power.{name}")
+
+            def m_truth(s, e):
+                return bool(e.branch(zi(s.v) != 0))
+
+        def sympify(e, x):
+            if isinstance(x, (int, SI)) and not isinstance(x, bool):
+                return IntPower(x)
+            return x
+
         def apply_mask(e, x, mask, keep=None):
             calls["apply"].append((x, mask, keep))
             return Tok("masked", x)
         eng.globals.update({
             "np": Namespace("np", {"array": Builtin("np.array", np_array)}),
-            "sympy": Namespace("sympy", {"sympify": Builtin("sympify", lambda e, x: x), "Matrix": Builtin("sympy.Matrix", lambda e, x: Tok("sympy.Matrix", x))}),
+            "sympy": Namespace("sympy", {"sympify": Builtin("sympify", sympify), "Matrix": Builtin("sympy.Matrix", lambda e, x: Tok("sympy.Matrix", x))}),
             "NumberOrderedForm": Namespace("NumberOrderedForm", {"from_expr": FROM_EXPR}),
             "second_quantization": Namespace("second_quantization", {"apply_mask_to_operator": Builtin("apply_mask_to_operator", apply_mask)}),
             "getattr": Builtin("getattr", getattr_), "BlockSeries": TypeObj("BlockSeries"), "zero": ZERO,
